@@ -44,6 +44,9 @@ type c09emitted struct {
 	rawPayload []byte
 }
 
+// c09forwardID marks the frames that the application forwards through the node (raw, id outside every dialect).
+const c09forwardID = 0xF0F0F1
+
 // checkLink runs the identity checks and the sequence automaton (DESIGN §8.4) over one link.
 func c09checkLink(rep *vh.Report, api string, conf c09conf, genv *gateEnv, frames []c09emitted, wantLink int) {
 	expect := 0
@@ -54,6 +57,12 @@ func c09checkLink(rep *vh.Report, api string, conf c09conf, genv *gateEnv, frame
 	}
 	for i, e := range frames {
 		f, n, st := ref.ParseAt(e.wire, 0)
+		if st == ref.ParseOK && f.MsgID == c09forwardID {
+			// a frame the application forwarded with WriteFrame* (own identity on it or not): not originated here, no part
+			// in the link's numbering
+			rep.Count("forwarded_frames_between_originated_ones", 1)
+			continue
+		}
 		rep.Eval(1)
 		rep.Count("originated_frames_"+api, 1)
 		wit := func() interface{} {
@@ -383,6 +392,26 @@ func TestC09(t *testing.T) {
 					_ = node.WriteMessageTo(chans[r.Intn(k)], m)
 				case 2:
 					_ = node.WriteMessageExcept(chans[r.Intn(k)], m)
+				}
+				if i%9 == 4 {
+					// a frame forwarded through the node, every third one with the node's OWN system and component id on it (own
+					// traffic echoed back to a router, a replayed frame) and any sequence number: the numbering of what the node
+					// originates goes on as if nothing had happened
+					fs := &ref.FrameSpec{Version: 2, Seq: r.Byte(), Sys: r.Byte(), Comp: r.Byte(), MsgID: c09forwardID, Payload: r.Bytes(1 + r.Intn(20)), Checksum: uint16(r.U64())}
+					if i%27 == 4 || i%27 == 13 {
+						fs.Sys, fs.Comp = conf.sys, conf.comp
+						if fs.Comp == 0 {
+							fs.Comp = 1
+						}
+					}
+					switch i % 3 {
+					case 0:
+						_ = node.WriteFrameAll(toFrame(fs))
+					case 1:
+						_ = node.WriteFrameTo(chans[r.Intn(k)], toFrame(fs))
+					case 2:
+						_ = node.WriteFrameExcept(chans[r.Intn(k)], toFrame(fs))
+					}
 				}
 				if i%40 == 7 {
 					// an ArduPilot heartbeat from a new system on a random channel triggers 7 stream requests there
